@@ -4,6 +4,52 @@ _NOTE = ('Trusted: CPython ast, mypy-inferred receiver types (callee resolution)
          'modules. Decides only the structural clauses named; runtime values, timing and histories are not decided.')
 
 CLAIMS = {
+    'C03': {
+        'text': 'Structural clauses decided from the source on every run: no call-graph cycle carrying peer data among the '
+                'functions reachable from the message decoders (registry dispatch recognised), every `while <buffer>` '
+                'decode loop shortens its buffer on every path (lower bounds folded, early-exit guards used), explicit '
+                'non-Notify raises reachable from the decoders are limited to the triaged defensive guards (a new one '
+                'fires), the last-resort barriers exist, unknown attributes are kept/ignored not refused. Not decided: '
+                'implicit IndexError/struct.error on every read, the linear-time bound.',
+        'note': _NOTE,
+        'technique': 'resolved call graph + SCC, syntax-directed loop-progress walk with interval lower bounds, interprocedural explicit exception flow with a frozen triage table',
+    },
+    'C05': {
+        'text': 'FSM.transition within the RFC 4271 relation; every fsm.change site reached only in a state the table '
+                'allows (path-sensitive propagation over the CFG with correlated guards and helper summaries); '
+                'ESTABLISHED reached only after OPEN sent/recorded, peer OPEN read/recorded, validate_open, KEEPALIVE '
+                'sent and read, on every path; senders of UPDATE/EOR/REFRESH/OPERATIONAL only below Peer._main; every '
+                'move to IDLE paired with a closing call; up/down emission sites and their ordering in the failure arms. '
+                'Not decided: real interleavings (second connection, task cancellation).',
+        'note': _NOTE,
+        'technique': 'per-function CFG + path-sensitive typestate propagation with correlated guards, call-graph who-may-call, dominance',
+    },
+    'C06': {
+        'text': 'Twin readers agree check by check; the three header checks with their NotifyError codes precede the body '
+                'read; constants and the per-type length table equal RFC 4271/2918; the accumulate-exactly-N loop shape '
+                'of _reader_async; unknown type 1/3 and reader error re-raised unchanged; msg_size raised only from '
+                'negotiated.msg_size after negotiated.received; no cancellable partial read that is then resumed. Not '
+                'decided: behaviour under every actual segmentation (asyncio sock_recv_into contract trusted).',
+        'note': _NOTE,
+        'technique': 'decision-plan extraction + sibling comparison, constant folding, def-use shape check of the read loop',
+    },
+    'C10': {
+        'text': 'Every literal NOTIFICATION (code, subcode) in the tree (about 250 sites) is in the repository table, itself '
+                'within the RFC table; error class by place; a received NOTIFICATION is never answered; in the except '
+                'Notify arm the NOTIFICATION is written at most once, then reset, nothing after (path-sensitive count); '
+                'every registered message type is handled or refused in ESTABLISHED. Not decided: the bytes written in '
+                'every state/fault combination.',
+        'note': _NOTE,
+        'technique': 'constant folding of all Notify sites, explicit exception flow, path-sensitive count lattice over the handler CFG, registry exhaustiveness',
+    },
+    'C12': {
+        'text': 'Wiring and constants only: expiry raise guarded by (now - last_read) > holdtime with the zero hold time '
+                'returning first and last_read refreshed only by real messages; keepalive = holdtime/3 and need_ka firing '
+                'rule; both timer calls unconditional in every main-loop iteration before outbound work; bounded outbound '
+                'batch; open wait -> 5/1. No statement about real time is decided.',
+        'note': _NOTE,
+        'technique': 'guard extraction + def-use on the timer functions, loop-body position/dominance, constant folding',
+    },
     'C08': {
         'text': 'Structural clauses of RFC 7606 handling decided on every run from the source: the treat-as-withdraw '
                 'marker is consumed before the announce sinks, the attribute walk checks the declared length against '
